@@ -292,9 +292,18 @@ struct xcm_socket *xcm_accept_a(struct xcm_socket *server_s,
     bool is_blocking = server_s->is_blocking;
     struct xcm_socket *conn_s;
 
+    /* The connection socket is created in the mode it is to have: an
+       "xcm.blocking" in attrs must not take a not-yet-accepted socket
+       through xcm_set_blocking()'s finish-outstanding-work step. */
+    bool conn_is_blocking = is_blocking;
+    const bool *attr_is_blocking = attrs != NULL ?
+	xcm_attr_map_get_bool(attrs, XCM_ATTR_XCM_BLOCKING) : NULL;
+    if (attr_is_blocking != NULL)
+	conn_is_blocking = *attr_is_blocking;
+
 restart:
     conn_s = socket_create(server_s->proto, xcm_socket_type_conn,
-			   server_s->is_blocking);
+			   conn_is_blocking);
     if (conn_s == NULL)
 	goto err;
 
